@@ -609,7 +609,8 @@ func c15PanicFn(stack string) string {
 			seenPanic = true
 			continue
 		}
-		if seenPanic && strings.Contains(l, "internal/tracer.") && !strings.Contains(l, "c15") {
+		if seenPanic && strings.Contains(l, "internal/tracer.") && !strings.Contains(l, "internal/tracer.c15") &&
+			!strings.Contains(l, "internal/tracer.(*c15") && !strings.Contains(l, "internal/tracer.TestVerif") {
 			l = l[strings.Index(l, "internal/tracer.")+len("internal/tracer."):]
 			if i := strings.LastIndex(l, "("); i > 0 {
 				l = l[:i]
